@@ -1,0 +1,22 @@
+//go:build verif
+
+// Package verifhook is a seam for deterministic simulation of goroutine
+// schedules. It only exists in builds with the tag "verif". A verification
+// harness that rewrites a scratch copy of this module so that every mutex
+// acquisition is preceded by a call to BeforeLock can install Hook and decide
+// which goroutine proceeds at each of those points. Nothing in the shipped
+// packages calls it.
+package verifhook
+
+// Hook, when set, is called by BeforeLock. It must be assigned before any
+// goroutine that may call BeforeLock is started.
+var Hook func(lock any, write bool, site int)
+
+// BeforeLock announces that the calling goroutine is about to acquire lock
+// (a pointer to a sync.Mutex or sync.RWMutex, or a pointer to such a pointer)
+// for writing or reading.
+func BeforeLock(lock any, write bool, site int) {
+	if h := Hook; h != nil {
+		h(lock, write, site)
+	}
+}
